@@ -433,13 +433,24 @@ theorem eOk_lvalue {X D : Nat → Bool} : ∀ (o : Expr) (root : Nat) (path : Li
 
 /-! ### The setting of the simulation -/
 
-/-- Fuel exhaustion and use-before-declaration: the endings of the plain run for which nothing is claimed. -/
-def Bad {α : Type} (r : Except Err α) : Prop := r = .error .fuel ∨ r = .error .unbound
+/-- The endings of the plain run for which nothing is claimed: fuel exhaustion (stack / time budget),
+use of a variable before its declaration, and a crash of the interpreter itself (`panic`: a failed
+`expect` / `unreachable!`, which property C06 excludes for accepted programs). -/
+def Bad {α : Type} (r : Except Err α) : Prop := r = .error .fuel ∨ r = .error .unbound ∨ r = .error .panic
+
+/-- Fuel exhaustion and use-before-declaration only (what a `PureNoTrap` expression can still end in). -/
+def Bad2 {α : Type} (r : Except Err α) : Prop := r = .error .fuel ∨ r = .error .unbound
+
+theorem Bad2.bad {α : Type} {r : Except Err α} (h : Bad2 r) : Bad r := h.elim Or.inl (fun h => Or.inr (Or.inl h))
+
+theorem bad_fuel {α : Type} : Bad (.error .fuel : Except Err α) := Or.inl rfl
+theorem bad_unbound {α : Type} : Bad (.error .unbound : Except Err α) := Or.inr (Or.inl rfl)
+theorem bad_panic {α : Type} : Bad (.error .panic : Except Err α) := Or.inr (Or.inr rfl)
 
 /-- Evaluating `e` never changes the state and never fails (other than by fuel or an unbound variable). -/
 def Quiet (P : Prims V) (e : Expr) : Prop :=
   ∀ (cfg : Cfg) (n : Nat) (st : St V),
-    (evalExpr P cfg n e st).2 = st ∧ ((∃ v, (evalExpr P cfg n e st).1 = .ok v) ∨ Bad (evalExpr P cfg n e st).1)
+    (evalExpr P cfg n e st).2 = st ∧ ((∃ v, (evalExpr P cfg n e st).1 = .ok v) ∨ Bad2 (evalExpr P cfg n e st).1)
 
 structure Setup where
   T : List (Nat × Bool)
